@@ -19,10 +19,10 @@
 (*    alive after the thread that ran a whole lifecycle has exited.        *)
 (***************************************************************************)
 EXTENDS Life, Json, IOUtils
-VARIABLES l, memo, keyh, ctsh, nhit, nstrict, nhelp
+VARIABLES l, memo, keyh, ctsh, nhit, nstrict, nhelp, nfile
 Tr == ndJsonDeserialize(IOEnv.TRACE)
 Ev == Tr[l]
-tvars == <<obj, val, blob, bval, fin, steps, last, l, memo, keyh, ctsh, nhit, nstrict, nhelp>>
+tvars == <<obj, val, blob, bval, fin, steps, last, l, memo, keyh, ctsh, nhit, nstrict, nhelp, nfile>>
 None == <<-1, -1>>
 NoKey == <<None, -1>>
 HasOut(e) == e.e = "Step" /\ e.op \in {"Gate", "Mux", "Const"}
@@ -30,7 +30,7 @@ KeyOf(e) == <<e.prog, e.op, IF e.op = "Gate" THEN e.g ELSE "-", IF e.op = "Const
 MemoKeys == {KeyOf(Tr[i]) : i \in {j \in 1..Len(Tr) : HasOut(Tr[j])}}
 Progs == {Tr[i].prog : i \in 1..Len(Tr)}
 TInit == /\ LInit /\ l = 1 /\ memo = [k \in MemoKeys |-> None] /\ keyh = [p \in Progs |-> [cloud |-> NoKey, secret |-> NoKey]]
-         /\ ctsh = None /\ nhit = 0 /\ nstrict = 0 /\ nhelp = 0
+         /\ ctsh = None /\ nhit = 0 /\ nstrict = 0 /\ nhelp = 0 /\ nfile = 0
 Consume == l <= Len(Tr) /\ l' = l + 1
 Function == LET k == KeyOf(Ev) IN
             IF memo[k] = None THEN memo' = [memo EXCEPT ![k] = Ev.hout] /\ nhit' = nhit
@@ -39,8 +39,9 @@ SameKeyBytes(which) == LET cur == keyh[Ev.prog][which] h == <<Ev.h, Ev.len>> IN
             IF cur = NoKey THEN keyh' = [keyh EXCEPT ![Ev.prog][which] = h] ELSE h = cur /\ keyh' = keyh
 Quiet == UNCHANGED <<memo, keyh, ctsh, nhit, nstrict>>
 TReset == /\ Ev.e = "Reset" /\ obj' = [o \in Objs |-> "none"] /\ val' = [a \in Arr |-> NoVals] /\ blob' = {} /\ bval' = NoVals
-          /\ fin' = TRUE /\ steps' = 0 /\ last' = [op |-> "Init"] /\ ctsh' = None /\ UNCHANGED <<memo, keyh, nhit, nstrict, nhelp>>
-TStep == /\ Ev.e = "Step" /\ Ev.th \in {"run", "helper"} /\ nhelp' = nhelp + (IF Ev.th = "helper" /\ Ev.op \in {"KeyGen", "ImportCloud", "ImportSecret", "Gate", "Mux"} THEN 1 ELSE 0)
+          /\ fin' = TRUE /\ steps' = 0 /\ last' = [op |-> "Init"] /\ ctsh' = None /\ UNCHANGED <<memo, keyh, nhit, nstrict, nhelp, nfile>>
+TStep == /\ Ev.e = "Step" /\ Ev.th \in {"run", "helper"} /\ Ev.tr \in {"stream", "file"}
+         /\ nfile' = nfile + (IF Ev.tr = "file" /\ Ev.op \in {"ExportCloud", "ExportSecret", "ExportCts", "ImportCloud", "ImportSecret", "ImportCts"} THEN 1 ELSE 0) /\ nhelp' = nhelp + (IF Ev.th = "helper" /\ Ev.op \in {"KeyGen", "ImportCloud", "ImportSecret", "Gate", "Mux"} THEN 1 ELSE 0)
          /\ CASE Ev.op = "NewParams"    -> NewParams /\ Quiet
               [] Ev.op = "KeyGen"       -> KeyGen /\ Quiet
               [] Ev.op = "NewCt"        -> NewCt(Ev.a, Ev.k) /\ Quiet
@@ -62,9 +63,9 @@ TStep == /\ Ev.e = "Step" /\ Ev.th \in {"run", "helper"} /\ nhelp' = nhelp + (IF
 TWindow == /\ Ev.e = "Window" /\ Terminal
            /\ Ev.damaged = 0 /\ Ev.dfree = 0
            /\ (Ev.strict = 1 => Ev.live_bytes = 0 /\ Ev.live_blocks = 0)
-           /\ nstrict' = nstrict + Ev.strict /\ UNCHANGED <<obj, val, blob, bval, fin, steps, last, memo, keyh, ctsh, nhit, nhelp>>
+           /\ nstrict' = nstrict + Ev.strict /\ UNCHANGED <<obj, val, blob, bval, fin, steps, last, memo, keyh, ctsh, nhit, nhelp, nfile>>
 TNext == Consume /\ (TReset \/ TStep \/ TWindow)                 \* a "Crash" event matches no action
 TSpec == TInit /\ [][TNext]_tvars
 Accepted == TLCGet("stats").diameter - 1 = Len(Tr)
-Exercised == (l = Len(Tr) + 1) => nhit >= 1 /\ nstrict >= 1 /\ nhelp >= 1
+Exercised == (l = Len(Tr) + 1) => nhit >= 1 /\ nstrict >= 1 /\ nhelp >= 1 /\ nfile >= 1
 =============================================================================
